@@ -239,6 +239,26 @@ func RunCheck(o CheckOpts) int {
 			r.Status, r.Backend, r.Ms, r.res = res.Status, res.Backend, res.Ms, res
 			if ob.Kind == "cover" {
 				r.ok = res.Status != "unsat"
+				if res.Status != "sat" && res.Status != "unsat" {
+					// quantifiers usually keep the solvers from answering "sat"; the ground part alone (every asserted
+					// formula that contains a quantifier dropped - a weakening) still exposes a contradiction between
+					// the ground facts: unsat there is unsat of the whole
+					var g strings.Builder
+					for _, l := range strings.Split(q, "\n") {
+						if strings.HasPrefix(l, "(assert") && (strings.Contains(l, "(forall ") || strings.Contains(l, "(exists ")) {
+							continue
+						}
+						g.WriteString(l)
+						g.WriteByte('\n')
+					}
+					res2 := Solve(dir, fmt.Sprintf("%d_%s_ground", i, id), g.String(), 3*time.Second, false)
+					if res2.Status == "unsat" {
+						r.Status, r.Backend, r.Ms, r.res = "unsat", res2.Backend+"/ground", res.Ms+res2.Ms, res2
+						r.ok = false
+					} else if res2.Status == "sat" {
+						r.Status = "sat-ground"
+					}
+				}
 			} else {
 				r.ok = res.Status == "unsat"
 			}
@@ -260,6 +280,18 @@ func RunCheck(o CheckOpts) int {
 	var oblList []*OblResult
 	var deadPaths []string
 	deadByFunc, liveReturns, returnsByFunc := map[string]int{}, map[string]int{}, map[string]int{}
+	var deadLoops []*OblResult
+	ackDead := map[string]bool{}
+	if data, err := os.ReadFile(filepath.Join(o.Verif, "lib", "unreachable_ok.txt")); err == nil {
+		for _, l := range strings.Split(string(data), "\n") {
+			if k := strings.Index(l, "#"); k >= 0 {
+				l = l[:k]
+			}
+			if l = strings.TrimSpace(l); l != "" {
+				ackDead[l] = true
+			}
+		}
+	}
 	for _, r := range results {
 		solverMs += r.Ms
 		oblList = append(oblList, r)
@@ -274,6 +306,12 @@ func RunCheck(o CheckOpts) int {
 				// only if no return of the function is reachable
 				deadPaths = append(deadPaths, r.ID)
 				deadByFunc[r.Function]++
+				// a loop body that cannot complete an iteration under the loop's own invariants means the invariants
+				// (or the facts the generator adds) contradict the code: every obligation behind it holds vacuously.
+				// That is reported as a violation of the contract unless the path is acknowledged as dead code.
+				if strings.Contains(r.obl.Name, ".backedge") && !ackDead[r.Function+"/"+stripPos(r.obl.Name)] {
+					deadLoops = append(deadLoops, r)
+				}
 			} else if strings.HasPrefix(r.obl.Name, "cover.return") {
 				liveReturns[r.Function]++
 			}
@@ -330,6 +368,16 @@ func RunCheck(o CheckOpts) int {
 					fmt.Println("      " + l)
 				}
 			}
+		}
+	}
+	for _, r := range deadLoops {
+		nViol++
+		r.Status = "unreachable"
+		r.Clause = "the loop body can complete an iteration under the loop's invariants (otherwise they contradict the code and everything behind them holds vacuously)"
+		path := writeReplay(o, w, r)
+		violations = append(violations, fmt.Sprintf("VIOLATION property=%s replay=%s no-failing-input-found", o.Prop, path))
+		if o.Verbose {
+			fmt.Printf("  FAILED %s [unreachable] cover :: %s\n", r.ID, r.Clause)
 		}
 	}
 	for f, n := range returnsByFunc {
